@@ -36,6 +36,12 @@ TIMEOUT = {"quick": 800, "thorough": 3400}
 
 
 def sus_spec(variant: int = 0) -> dict:
+    if variant == 3:
+        # a retry loop upstream of the gate: a -> c[jumps back to a once] -> w: a signal buffered on the not yet
+        # started gate has to survive the jump that re-arms the gate with the rest of the loop's downstream
+        w = specs.st("w", ["c"], [{"kind": "suspend", "out": ["w_o"]}])
+        c = specs.st("c", ["a"], [{"kind": "jump", "to": "a", "times": 1, "out": ["c_o"]}])
+        return {"name": "suspend3_loop_upstream", "confluent": True, "stages": [specs.st("a"), c, w, specs.st("z", ["w"])]}
     if variant == 1:
         w = specs.st("w", ["a"], [dict(specs.OK, out=["w0"]), {"kind": "suspend", "out": ["w_o"]}])
     elif variant == 2:
@@ -47,7 +53,7 @@ def sus_spec(variant: int = 0) -> dict:
 
 def gen_cases(tier: str, seed: int) -> list[dict]:
     cases = []
-    for variant in (0, 1, 2):
+    for variant in (0, 1, 2, 3):
         for persistent in (True, False):
             for order in ("fifo", "random", "random_noack"):
                 reps = 1 if tier == "quick" else 6
@@ -161,6 +167,10 @@ def _seq(case: dict) -> dict:
     sample = None
     for step in range(ref.steps + 3):
         inj = [{"at": step, "do": "signal", "ref": "w", "persistent": case["persistent"], "id": f"sig{step}", "name": "go"}]
+        if case["persistent"] and step % 3 == 2 and case["variant"] in (0, 1):
+            # an operator restart of the finished upstream stage re-arms the gate too: a buffered signal stays
+            inj.append({"at": step + rng.randrange(1, 6), "do": "restart_stage", "ref": "a"})
+            obs["restart_injections"] += 1
         run = delivery_run(spec, seed=rng.randrange(1 << 30), order=order, noack_p=noack, injections=inj, max_steps=ref.steps * 5 + 80)
         obs["evaluations"] += 1
         v, o, k = signal_oracle(run, [{"id": f"sig{step}", "persistent": case["persistent"]}])
